@@ -27,6 +27,7 @@ import PyTough.Proofs.GeoRun
 import PyTough.Proofs.GeoLayers
 import PyTough.Proofs.GeoRename
 import PyTough.Proofs.GeoRefineLayers
+import PyTough.Proofs.GeoSnap
 namespace Props.C10
 open Model.Geo Model.Geo.Geo Py Proofs.Geo
 
@@ -246,6 +247,24 @@ example : (strip2 >>= fun g => g.renameColumn [nm 'a'] [nm 'q'] >>= fun g =>
                       { name := [' ', '2'], bottom := -3, centre := -5/2, top := -2 }]).map
       (fun g => (g.geoInv, g.connD.map (·.1), g.blockNames.length)) =
     .ok (true, [(nm 'q', nm 'b')], 4) := by decide +kernel
+
+/-! ### snapping surfaces, `identify_neighbours` -/
+
+/-- `snap_columns_to_layers` / `snap_columns_to_nearest_layers` change nothing but the surfaces and layer counts of
+    the selected columns: the structural invariant is kept (and the name lists are fresh afterwards, see above).
+    That the layer count still matches the snapped surface is NOT proved (it needs the layer stack to be ordered). -/
+theorem snap_columns_to_layers_preserves_structure (g g' : Geo) (t : Rat) (cols : List Nat)
+    (hs : g.snapColumnsToLayers t cols = .ok g') (h : g.geoInv0 = true) : g'.geoInv0 = true :=
+  snapColumnsToLayers_struct g g' t cols hs h
+
+theorem snap_columns_to_nearest_layers_preserves_structure (g g' : Geo) (cols : List Nat)
+    (hs : g.snapColumnsToNearestLayers cols = .ok g') (h : g.geoInv0 = true) : g'.geoInv0 = true :=
+  snapColumnsToNearestLayers_struct g g' cols hs h
+
+/-- in a consistent geometry `identify_neighbours()` is the identity: `add_connection` / `delete_connection` keep
+    the neighbour sets exact, there is nothing left for it to add -/
+theorem identify_neighbours_identity (g : Geo) (h : g.geoInv0 = true) : g.identifyNeighbours = g :=
+  identifyNeighbours_eq g h
 
 /-! ### translating and rotating preserve the whole invariant -/
 
